@@ -15,6 +15,7 @@ import (
 	"github.com/projecteru2/core/store"
 	"github.com/projecteru2/core/store/etcdv3"
 	"github.com/projecteru2/core/store/etcdv3/embedded"
+	goredis "github.com/go-redis/redis/v8"
 	redisstore "github.com/projecteru2/core/store/redis"
 	coretypes "github.com/projecteru2/core/types"
 )
@@ -26,6 +27,7 @@ type stores struct {
 	redis *redisstore.Rediaron
 	mr    *miniredis.Miniredis
 	cli   *clientv3.Client // raw, namespaced client of the embedded etcd
+	rcli  *goredis.Client  // raw client of the miniredis server (probes only)
 
 	clockMu   sync.Mutex
 	clockStop chan struct{}
@@ -52,6 +54,8 @@ func newStores(t *testing.T) *stores {
 		t.Fatalf("redis.New: %v", err)
 	}
 	s.cli = embedded.NewCluster(t, cfg.Etcd.Prefix).RandClient()
+	s.rcli = goredis.NewClient(&goredis.Options{Addr: mr.Addr()})
+	t.Cleanup(func() { _ = s.rcli.Close() })
 	return s
 }
 
